@@ -55,6 +55,7 @@ func must(err error) {
 
 type fileSpec struct {
 	Name string
+	Gen  string // a shell command that writes the same bytes to stdout (reproducers of large generated files)
 	Data []byte
 	Kind string // "" regular file | "dir" | "symlink" (Data = target) | "fifo" | "fifo_writer" (Data written by a late writer)
 }
@@ -596,6 +597,10 @@ func repro(j *job) string {
 		switch f.Kind {
 		case "":
 			d := f.Data
+			if f.Gen != "" {
+				sb.WriteString(" && " + f.Gen + " > " + shq(f.Name))
+				continue
+			}
 			if f.Name == "big.csv" && isBig(d) {
 				sb.WriteString(" && " + bigAwk + " > big.csv")
 				continue
@@ -890,6 +895,7 @@ func run(seed int64, n int, dir string, _ []string) {
 			jobs = append(jobs, fsJobs(g)...)
 		}
 		jobs = append(jobs, accessPathJobs(g, budget*3/100, done == 0)...)
+		jobs = append(jobs, sizeJobs(g, budget*2/100, done == 0)...)
 		jobs = append(jobs, stmtJobs(g, budget*18/100)...)
 		jobs = append(jobs, fnJobs(g, budget*47/100)...)
 		jobs = append(jobs, dataJobs(g, budget*30/100)...)
